@@ -20,6 +20,15 @@
 //	operations is one batch published at the same instant, followed by the quiescence wait and
 //	ONE check line.
 //
+// Second topic: when "uroles" is present every node first takes its role on the unrelated topic "U" (then on T, then the
+// graph is built); every U-interested node publishes one message on U in every batch, and the check line carries the same
+// observations for U under "u" (judged per topic by NetTrace).
+//
+// Long-running histories: {"op":"stream","a":count,"b":payload bytes,"ps":[publishers],"gap":g} publishes one message per
+// heartbeat (400 ms after it) for `count` heartbeats, publishers in turn, records the nodes' mesh state at every publish
+// instant and every GRAFT/PRUNE event, waits the quiescence period and emits ONE check line ("stream":true). NetTrace then
+// judges every message of the stream whose own propagation window saw no mesh change. gap "l" settles first like "pub".
+//
 // ops also accepts {"op":"wait","a":k} (let k heartbeats pass; not a stimulus) for targeted scenarios such as
 // testdata/unsettled_star.ndjson: a 4-star whose hub has degree Dhi, so its mesh is cut back every sweep period and
 // the meshes never settle; the leaf whose mesh is empty publishes just before the sweeping heartbeat, which GRAFTs the
@@ -53,13 +62,17 @@ import (
 
 type M = map[string]any
 
-const topicName = "T"
+const (
+	topicName = "T" // the topic under test
+	topicU    = "U" // an unrelated second topic (static roles, traffic in every batch)
+)
 
 type op struct {
 	Op  string `json:"op"`
 	A   int    `json:"a"`
 	B   int    `json:"b"`
 	Gap string `json:"gap"`
+	Ps  []int  `json:"ps"` // stream: publishers, used round-robin
 }
 
 type scenario struct {
@@ -70,6 +83,10 @@ type scenario struct {
 	Ops    []op     `json:"ops"`
 	Params string   `json:"params"`
 	Src    string   `json:"src"`
+	// roles on the unrelated second topic "U" ("none" | "sub" | "relay"), established BEFORE the roles on T
+	Uroles []string `json:"uroles"`
+	// LateRoles: build the graph FIRST and take the roles afterwards (interest travels in announcements instead of hello packets)
+	LateRoles bool `json:"late_roles"`
 }
 
 // smallParams: the scaled-down gossipsub parameters of spec/net (D=2, Dlo=1, Dhi=3, Dlazy=2).
@@ -100,6 +117,7 @@ type counter struct {
 	ihaveRecv int // IHAVE ids received
 	msgSent   int
 	log       []string
+	mev       [][2]int64 // GRAFT/PRUNE events: (virtual ms, 1 if on the topic under test else 0)
 	keep      bool
 	me        string
 	names     *hnet.Names
@@ -156,14 +174,22 @@ func (c *counter) OnClosedOutboundStream(p peer.ID) {
 }
 func (c *counter) Join(string)  { c.mu.Lock(); c.note("join"); c.mu.Unlock() }
 func (c *counter) Leave(string) { c.mu.Lock(); c.note("leave"); c.mu.Unlock() }
-func (c *counter) Graft(p peer.ID, _ string) {
+func b2i(b bool) int64 {
+	if b {
+		return 1
+	}
+	return 0
+}
+func (c *counter) Graft(p peer.ID, tp string) {
 	c.mu.Lock()
-	c.note("graft %s", c.names.P(p))
+	c.mev = append(c.mev, [2]int64{hnet.NowMs(), b2i(tp == topicName)})
+	c.note("graft %s %s", c.names.P(p), tp)
 	c.mu.Unlock()
 }
-func (c *counter) Prune(p peer.ID, _ string) {
+func (c *counter) Prune(p peer.ID, tp string) {
 	c.mu.Lock()
-	c.note("prune %s", c.names.P(p))
+	c.mev = append(c.mev, [2]int64{hnet.NowMs(), b2i(tp == topicName)})
+	c.note("prune %s %s", c.names.P(p), tp)
 	c.mu.Unlock()
 }
 func (c *counter) ValidateMessage(*pubsub.Message) {}
@@ -220,25 +246,37 @@ func (c *counter) UndeliverableMessage(*pubsub.Message) {
 // ---------------------------------------------------------------------------
 
 type subRec struct {
-	id    string // "<node>.<k>"
+	id    string // "<node>.<k>" on T, "u<node>.<k>" on U
 	sub   *pubsub.Subscription
 	mu    sync.Mutex
 	count map[string]int // message name -> deliveries
-	other int            // deliveries whose payload the harness did not publish
+	other int            // deliveries whose payload the harness did not publish on this topic
 	done  chan struct{}
 }
 
-type node struct {
-	idx    int
-	kind   string
-	h      host.Host
-	ps     *pubsub.PubSub
+// tstate is what one node holds on one topic.
+type tstate struct {
 	topic  *pubsub.Topic
 	subs   []*subRec // live subscriptions
 	dead   []*subRec // cancelled subscriptions
 	relays []pubsub.RelayCancelFunc
 	nsub   int
-	ctr    *counter
+}
+
+type node struct {
+	idx  int
+	kind string
+	h    host.Host
+	ps   *pubsub.PubSub
+	ts   map[string]*tstate
+	ctr  *counter
+}
+
+func (n *node) st(tn string) *tstate {
+	if n.ts[tn] == nil {
+		n.ts[tn] = &tstate{}
+	}
+	return n.ts[tn]
 }
 
 type world struct {
@@ -252,11 +290,11 @@ type world struct {
 	params  pubsub.GossipSubParams
 	settle  int // heartbeats
 	edges   map[[2]int]bool
-	msgs    []string       // names of all messages published so far
-	pubAt   map[string]int // message name -> publisher
-	lastOp  int64          // heartbeat number (since t0) of the last churn stimulus
+	msgs    map[string][]string // topic -> names of all messages published so far
+	lastOp  int64               // heartbeat number (since t0) of the last churn stimulus
 	debug   bool
-	nextMsg int
+	nextMsg map[string]int
+	twoTop  bool
 }
 
 func (w *world) node(i int) *node { return w.nodes[i-1] }
@@ -277,7 +315,7 @@ func (w *world) hbNo() int64 {
 	return d/1000 + 1
 }
 
-// toPhase advances virtual time to the next instant whose phase is ph, crossing `hbs` heartbeats
+// crossTo advances virtual time to the next instant whose phase is ph, crossing `hbs` heartbeats
 // first (hbs=0: stay inside the current heartbeat interval; if ph has passed, cross one).
 func (w *world) crossTo(hbs int, ph int64) {
 	now := hnet.NowMs()
@@ -298,26 +336,36 @@ func (w *world) crossTo(hbs int, ph int64) {
 	hnet.AdvanceTo(target)
 }
 
-func (w *world) join(n *node) *pubsub.Topic {
-	if n.topic == nil {
-		tp, err := n.ps.Join(topicName)
+func (w *world) join(n *node, tn string) *pubsub.Topic {
+	st := n.st(tn)
+	if st.topic == nil {
+		tp, err := n.ps.Join(tn)
 		if err != nil {
 			w.t.Fatalf("join: %v", err)
 		}
-		n.topic = tp
+		st.topic = tp
 	}
-	return n.topic
+	return st.topic
 }
 
-func (w *world) subscribe(n *node) {
-	tp := w.join(n)
-	s, err := tp.Subscribe()
+func (w *world) subscribe(n *node, tn string) {
+	tp := w.join(n, tn)
+	s, err := tp.Subscribe(pubsub.WithBufferSize(256))
 	if err != nil {
 		w.t.Fatalf("subscribe: %v", err)
 	}
-	n.nsub++
-	r := &subRec{id: fmt.Sprintf("%d.%d", n.idx, n.nsub), sub: s, count: map[string]int{}, done: make(chan struct{})}
-	n.subs = append(n.subs, r)
+	st := n.st(tn)
+	st.nsub++
+	pre := ""
+	if tn != topicName {
+		pre = "u"
+	}
+	r := &subRec{id: fmt.Sprintf("%s%d.%d", pre, n.idx, st.nsub), sub: s, count: map[string]int{}, done: make(chan struct{})}
+	st.subs = append(st.subs, r)
+	want := byte('m')
+	if tn != topicName {
+		want = 'u'
+	}
 	go func() {
 		defer close(r.done)
 		for {
@@ -327,7 +375,7 @@ func (w *world) subscribe(n *node) {
 			}
 			name := payloadName(m.GetData())
 			r.mu.Lock()
-			if name == "" {
+			if name == "" || name[0] != want || m.GetTopic() != tn {
 				r.other++
 			} else {
 				r.count[name]++
@@ -342,36 +390,42 @@ func payloadName(b []byte) string {
 		if c == '|' {
 			return string(b[:i])
 		}
+		if i > 12 {
+			break
+		}
 	}
 	return ""
 }
 
-func (w *world) cancel(n *node) bool {
-	if len(n.subs) == 0 {
+func (w *world) cancel(n *node, tn string) bool {
+	st := n.st(tn)
+	if len(st.subs) == 0 {
 		return false
 	}
-	r := n.subs[len(n.subs)-1]
-	n.subs = n.subs[:len(n.subs)-1]
+	r := st.subs[len(st.subs)-1]
+	st.subs = st.subs[:len(st.subs)-1]
 	r.sub.Cancel()
-	n.dead = append(n.dead, r)
+	st.dead = append(st.dead, r)
 	return true
 }
 
-func (w *world) relay(n *node) {
-	tp := w.join(n)
+func (w *world) relay(n *node, tn string) {
+	tp := w.join(n, tn)
 	c, err := tp.Relay()
 	if err != nil {
 		w.t.Fatalf("relay: %v", err)
 	}
-	n.relays = append(n.relays, c)
+	st := n.st(tn)
+	st.relays = append(st.relays, c)
 }
 
-func (w *world) unrelay(n *node) bool {
-	if len(n.relays) == 0 {
+func (w *world) unrelay(n *node, tn string) bool {
+	st := n.st(tn)
+	if len(st.relays) == 0 {
 		return false
 	}
-	c := n.relays[len(n.relays)-1]
-	n.relays = n.relays[:len(n.relays)-1]
+	c := st.relays[len(st.relays)-1]
+	st.relays = st.relays[:len(st.relays)-1]
 	c()
 	return true
 }
@@ -387,7 +441,6 @@ func (w *world) connect(a, b int) bool {
 	if a == b || w.edges[ekey(a, b)] {
 		return false
 	}
-	// the lower-numbered node dials unless the scenario says otherwise (a dials b)
 	if err := hnet.Connect(w.node(a).h, w.node(b).h); err != nil {
 		w.t.Logf("connect %d-%d: %v", a, b, err)
 		return false
@@ -405,29 +458,28 @@ func (w *world) disconnect(a, b int) bool {
 	return true
 }
 
-func (w *world) publish(n *node) string {
-	w.nextMsg++
-	name := fmt.Sprintf("m%d", w.nextMsg)
-	tp := w.join(n)
-	if err := tp.Publish(w.ctx, []byte(name+"|from "+fmt.Sprint(n.idx))); err != nil {
+// publish one distinguishable payload ("m<k>|..." on T, "u<k>|..." on U), padded to size bytes.
+func (w *world) publish(n *node, tn string, size int) string {
+	w.nextMsg[tn]++
+	pre := "m"
+	if tn != topicName {
+		pre = "u"
+	}
+	name := fmt.Sprintf("%s%d", pre, w.nextMsg[tn])
+	data := []byte(name + "|from " + fmt.Sprint(n.idx))
+	if size > len(data) {
+		data = append(data, make([]byte, size-len(data))...)
+	}
+	tp := w.join(n, tn)
+	if err := tp.Publish(w.ctx, data); err != nil {
 		w.t.Fatalf("publish: %v", err)
 	}
-	w.msgs = append(w.msgs, name)
-	w.pubAt[name] = n.idx
+	w.msgs[tn] = append(w.msgs[tn], name)
 	return name
 }
 
 // ---------------------------------------------------------------------------
 // observation
-
-func (w *world) nameList(ids []peer.ID) []string {
-	out := make([]string, 0, len(ids))
-	for _, id := range ids {
-		out = append(out, w.names.P(id))
-	}
-	sort.Strings(out)
-	return out
-}
 
 func idxOf(name string) int {
 	var i int
@@ -446,16 +498,32 @@ func (w *world) idxList(ids []peer.ID) []int {
 	return out
 }
 
-// views: what every node believes right now.
-func (w *world) views() M {
+// meshState: what the routers hold for topic tn right now (cheap: used at every publish instant of a stream).
+func (w *world) meshState(tn string) M {
+	views, mesh, joined := []any{}, []any{}, []any{}
+	for _, n := range w.nodes {
+		views = append(views, w.idxList(n.ps.ListPeers(tn)))
+		me, j := []int{}, false
+		if st := n.ps.VerifSnapshot(); st != nil && st.GS != nil {
+			if m, ok := st.GS.Mesh[tn]; ok {
+				j, me = true, w.idxList(m)
+			}
+		}
+		mesh, joined = append(mesh, me), append(joined, j)
+	}
+	return M{"views": views, "mesh": mesh, "joined": joined}
+}
+
+// views: what every node believes about topic tn right now.
+func (w *world) views(tn string) M {
 	peers, views, topics, subs, relays := []any{}, []any{}, []any{}, []any{}, []any{}
 	mesh, fanout, joined, backoff, protos := []any{}, []any{}, []any{}, []any{}, []any{}
 	for _, n := range w.nodes {
 		peers = append(peers, w.idxList(n.ps.ListPeers("")))
-		views = append(views, w.idxList(n.ps.ListPeers(topicName)))
+		views = append(views, w.idxList(n.ps.ListPeers(tn)))
 		has := false
 		for _, t := range n.ps.GetTopics() {
-			if t == topicName {
+			if t == tn {
 				has = true
 			}
 		}
@@ -463,20 +531,20 @@ func (w *world) views() M {
 		st := n.ps.VerifSnapshot()
 		ns, nr := 0, 0
 		if st != nil {
-			ns, nr = st.MySubs[topicName], st.MyRelays[topicName]
+			ns, nr = st.MySubs[tn], st.MyRelays[tn]
 		}
 		subs = append(subs, ns)
 		relays = append(relays, nr)
 		me, fo, bo, pr := []int{}, []int{}, []int{}, M{}
 		j := false
 		if st != nil && st.GS != nil {
-			if m, ok := st.GS.Mesh[topicName]; ok {
+			if m, ok := st.GS.Mesh[tn]; ok {
 				j = true
 				me = w.idxList(m)
 			}
-			fo = w.idxList(st.GS.Fanout[topicName])
+			fo = w.idxList(st.GS.Fanout[tn])
 			var b []peer.ID
-			for p := range st.GS.Backoff[topicName] {
+			for p := range st.GS.Backoff[tn] {
 				b = append(b, p)
 			}
 			bo = w.idxList(b)
@@ -531,13 +599,14 @@ func (w *world) wantEdges() [][]int {
 	return out
 }
 
-func (w *world) deliveries() []any {
+func (w *world) deliveries(tn string) []any {
 	out := []any{}
 	for _, n := range w.nodes {
-		for _, grp := range [][]*subRec{n.subs, n.dead} {
+		st := n.st(tn)
+		for _, grp := range [][]*subRec{st.subs, st.dead} {
 			for _, r := range grp {
 				r.mu.Lock()
-				for _, m := range w.msgs {
+				for _, m := range w.msgs[tn] {
 					out = append(out, M{"n": n.idx, "s": r.id, "m": m, "c": r.count[m]})
 				}
 				if r.other > 0 {
@@ -558,6 +627,33 @@ func subIDs(l []*subRec) []string {
 	return out
 }
 
+// liveDead: subscription ids and relay counts the harness itself holds on topic tn.
+func (w *world) liveDead(tn string) (live, dead, irel []any) {
+	live, dead, irel = []any{}, []any{}, []any{}
+	for _, n := range w.nodes {
+		st := n.st(tn)
+		live = append(live, subIDs(st.subs))
+		dead = append(dead, subIDs(st.dead))
+		irel = append(irel, len(st.relays))
+	}
+	return
+}
+
+// meshEvents: GRAFT/PRUNE events of all nodes since virtual ms `since`: [ms relative to t0, onT].
+func (w *world) meshEvents(since int64) []any {
+	out := []any{}
+	for _, n := range w.nodes {
+		n.ctr.mu.Lock()
+		for _, e := range n.ctr.mev {
+			if e[0] >= since {
+				out = append(out, []int64{e[0] - w.t0, e[1]})
+			}
+		}
+		n.ctr.mu.Unlock()
+	}
+	return out
+}
+
 // ---------------------------------------------------------------------------
 
 func marker(i int) {
@@ -568,7 +664,8 @@ func marker(i int) {
 
 func runScenario(t *testing.T, out *vh.Out, idx int, s scenario, debug bool) {
 	synctest.Test(t, func(t *testing.T) {
-		w := &world{t: t, names: hnet.NewNames(), edges: map[[2]int]bool{}, pubAt: map[string]int{}, debug: debug}
+		w := &world{t: t, names: hnet.NewNames(), edges: map[[2]int]bool{}, debug: debug,
+			msgs: map[string][]string{}, nextMsg: map[string]int{}, twoTop: len(s.Uroles) == s.N}
 		w.ctx, w.stop = context.WithCancel(context.Background())
 		if s.Params == "default" {
 			w.params = defaultParams()
@@ -588,7 +685,7 @@ func runScenario(t *testing.T, out *vh.Out, idx int, s scenario, debug bool) {
 			h := w.net.Take()
 			name := fmt.Sprintf("n%d", i+1)
 			w.names.AddPeer(h.ID(), name)
-			n := &node{idx: i + 1, kind: s.Kinds[i], h: h, ctr: &counter{keep: debug, me: name, names: w.names}}
+			n := &node{idx: i + 1, kind: s.Kinds[i], h: h, ts: map[string]*tstate{}, ctr: &counter{keep: debug, me: name, names: w.names}}
 			opts := []pubsub.Option{pubsub.WithRawTracer(n.ctr)}
 			var err error
 			switch n.kind {
@@ -610,30 +707,51 @@ func runScenario(t *testing.T, out *vh.Out, idx int, s scenario, debug bool) {
 			w.stop()
 			hnet.Settle(10 * time.Millisecond)
 		}()
-		// initial roles, then the initial graph (the hello packets carry the interest)
-		for i, r := range s.Roles {
-			n := w.nodes[i]
+		// roles on the unrelated topic first, then the roles on the topic under test, then the initial graph
+		// (the hello packets carry the interest)
+		role := func(n *node, tn, r string) {
 			switch r {
 			case "sub":
-				w.subscribe(n)
+				w.subscribe(n, tn)
 			case "sub2":
-				w.subscribe(n)
-				w.subscribe(n)
+				w.subscribe(n, tn)
+				w.subscribe(n, tn)
 			case "relay":
-				w.relay(n)
+				w.relay(n, tn)
 			case "none":
 			default:
 				t.Fatalf("unknown role %q", r)
 			}
 		}
-		for _, e := range s.Edges {
-			w.connect(e[0], e[1])
+		if s.LateRoles {
+			for _, e := range s.Edges {
+				w.connect(e[0], e[1])
+			}
+			hnet.Settle(30 * time.Millisecond)
+		}
+		if w.twoTop {
+			for i, r := range s.Uroles {
+				role(w.nodes[i], topicU, r)
+			}
+		}
+		for i, r := range s.Roles {
+			role(w.nodes[i], topicName, r)
+		}
+		if !s.LateRoles {
+			for _, e := range s.Edges {
+				w.connect(e[0], e[1])
+			}
 		}
 		p := w.params
-		out.Emit(M{"e": "reset", "scn": idx, "n": s.N, "kinds": s.Kinds, "edges": w.wantEdges(), "roles": s.Roles, "src": s.Src,
+		uroles := s.Uroles
+		if !w.twoTop {
+			uroles = []string{}
+		}
+		out.Emit(M{"e": "reset", "scn": idx, "n": s.N, "kinds": s.Kinds, "edges": w.wantEdges(), "roles": s.Roles, "uroles": uroles, "late_roles": s.LateRoles, "src": s.Src,
 			"params": M{"name": s.Params, "D": p.D, "Dlo": p.Dlo, "Dhi": p.Dhi, "Dlazy": p.Dlazy, "Dscore": p.Dscore, "Dout": p.Dout,
 				"RandomSubD": pubsub.RandomSubD, "pruneBackoffMs": p.PruneBackoff.Milliseconds(), "unsubBackoffMs": p.UnsubscribeBackoff.Milliseconds(),
-				"historyGossip": p.HistoryGossip, "historyLength": p.HistoryLength, "settleHb": w.settle, "fanoutTTLMs": p.FanoutTTL.Milliseconds()},
+				"historyGossip": p.HistoryGossip, "historyLength": p.HistoryLength, "settleHb": w.settle, "fanoutTTLMs": p.FanoutTTL.Milliseconds(),
+				"windowMs": int64(s.N+p.HistoryGossip+1) * 1000},
 			"nops": len(s.Ops), "t": hnet.NowMs() - w.t0})
 		w.crossTo(1, 400) // past the first heartbeat
 		w.lastOp = 0
@@ -645,7 +763,7 @@ func runScenario(t *testing.T, out *vh.Out, idx int, s scenario, debug bool) {
 				out.Emit(M{"e": "op", "scn": idx, "k": k + 1, "op": o.Op, "a": o.A, "b": o.B, "gap": o.Gap, "ok": true, "t": hnet.NowMs() - w.t0})
 				continue
 			}
-			if o.Op != "pub" {
+			if o.Op != "pub" && o.Op != "stream" {
 				switch o.Gap {
 				case "h":
 					w.crossTo(1, 400)
@@ -661,15 +779,15 @@ func runScenario(t *testing.T, out *vh.Out, idx int, s scenario, debug bool) {
 				ok := false
 				switch o.Op {
 				case "sub":
-					w.subscribe(w.node(o.A))
+					w.subscribe(w.node(o.A), topicName)
 					ok = true
 				case "cancel":
-					ok = w.cancel(w.node(o.A))
+					ok = w.cancel(w.node(o.A), topicName)
 				case "relay":
-					w.relay(w.node(o.A))
+					w.relay(w.node(o.A), topicName)
 					ok = true
 				case "unrelay":
-					ok = w.unrelay(w.node(o.A))
+					ok = w.unrelay(w.node(o.A), topicName)
 				case "conn":
 					ok = w.connect(o.A, o.B)
 				case "disc":
@@ -682,29 +800,75 @@ func runScenario(t *testing.T, out *vh.Out, idx int, s scenario, debug bool) {
 				out.Emit(M{"e": "op", "scn": idx, "k": k + 1, "op": o.Op, "a": o.A, "b": o.B, "gap": o.Gap, "ok": ok, "t": hnet.NowMs() - w.t0})
 				continue
 			}
-			// ---- a publish batch: settle, observe, publish, wait, observe
-			need := int(w.lastOp) + w.settle - int(w.hbNo())
-			if need > 0 {
-				w.crossTo(need, 400)
-			} else if w.phase() != 400 {
-				w.crossTo(0, 400)
+			// ---- a publish batch or a stream: settle, observe, publish, wait, observe
+			stream := o.Op == "stream"
+			if !stream || o.Gap == "l" {
+				need := int(w.lastOp) + w.settle - int(w.hbNo())
+				if need > 0 {
+					w.crossTo(need, 400)
+				} else if w.phase() != 400 {
+					w.crossTo(0, 400)
+				}
+			} else {
+				w.crossTo(1, 400)
 			}
-			pre := w.views()
+			pre := w.views(topicName)
+			var preU M
+			if w.twoTop {
+				preU = w.views(topicU)
+			}
 			real := w.realEdges()
 			for _, n := range w.nodes {
 				n.ctr.mu.Lock()
 				n.ctr.iwantRecv, n.ctr.ihaveRecv, n.ctr.msgSent = 0, 0, 0
 				n.ctr.mu.Unlock()
 			}
-			tpub := hnet.NowMs() - w.t0
-			pubs := []any{}
-			for ; k < len(s.Ops) && s.Ops[k].Op == "pub"; k++ {
-				n := w.node(s.Ops[k].A)
-				pubs = append(pubs, M{"n": n.idx, "m": w.publish(n)})
+			t0abs := hnet.NowMs()
+			tpub := t0abs - w.t0
+			pubs, upubs := []any{}, []any{}
+			if stream {
+				ps := o.Ps
+				if len(ps) == 0 {
+					ps = []int{1}
+				}
+				for i := 0; i < o.A; i++ {
+					if i > 0 {
+						w.crossTo(1, 400)
+					}
+					n := w.node(ps[i%len(ps)])
+					e := w.meshState(topicName)
+					e["n"], e["t"] = n.idx, hnet.NowMs()-w.t0
+					e["m"] = w.publish(n, topicName, o.B)
+					pubs = append(pubs, e)
+					if w.twoTop && i%4 == 0 { // the other topic keeps carrying traffic
+						for _, un := range w.nodes {
+							if len(un.st(topicU).subs) > 0 || len(un.st(topicU).relays) > 0 {
+								upubs = append(upubs, M{"n": un.idx, "m": w.publish(un, topicU, 0)})
+								break
+							}
+						}
+					}
+				}
+			} else {
+				for ; k < len(s.Ops) && s.Ops[k].Op == "pub"; k++ {
+					n := w.node(s.Ops[k].A)
+					pubs = append(pubs, M{"n": n.idx, "m": w.publish(n, topicName, 0)})
+				}
+				k--
+				if w.twoTop { // every U-interested node publishes on U in the same instant
+					for _, un := range w.nodes {
+						if len(un.st(topicU).subs) > 0 || len(un.st(topicU).relays) > 0 {
+							upubs = append(upubs, M{"n": un.idx, "m": w.publish(un, topicU, 0)})
+						}
+					}
+				}
 			}
-			k--
 			hnet.Settle(20 * time.Millisecond)
-			fan := w.views()["fanout"]
+			fan := w.views(topicName)["fanout"]
+			var fanU any
+			if w.twoTop {
+				fanU = w.views(topicU)["fanout"]
+			}
 			// quiescence: eager push is over within milliseconds; lazy repair needs one IHAVE/IWANT round per
 			// gossip hop: wait 2N + HistoryGossip + 2 heartbeats
 			w.crossTo(2*s.N+p.HistoryGossip+2, 400)
@@ -714,22 +878,35 @@ func runScenario(t *testing.T, out *vh.Out, idx int, s scenario, debug bool) {
 				iw, ih, sent = iw+n.ctr.iwantRecv, ih+n.ctr.ihaveRecv, sent+n.ctr.msgSent
 				n.ctr.mu.Unlock()
 			}
-			live, dead, irel := []any{}, []any{}, []any{}
-			for _, n := range w.nodes {
-				live = append(live, subIDs(n.subs))
-				dead = append(dead, subIDs(n.dead))
-				irel = append(irel, len(n.relays))
-			}
-			// the environment half of the premise must have held throughout the batch: observe it again now
+			// the premise must have held throughout: observe the environment and the meshes again now
 			peers1 := []any{}
 			for _, n := range w.nodes {
 				peers1 = append(peers1, w.idxList(n.ps.ListPeers("")))
 			}
-			line := M{"e": "check", "scn": idx, "k": k + 1, "t": tpub, "tq": hnet.NowMs() - w.t0,
-				"edges": w.wantEdges(), "real": real, "real1": w.realEdges(), "peers1": peers1, "pubs": pubs, "live": live, "dead": dead, "deliv": w.deliveries(),
-				"fanout1": fan, "irelays": irel, "kinds": s.Kinds, "iwant": iw, "ihave": ih, "sent": sent}
+			post := w.views(topicName)
+			live, dead, irel := w.liveDead(topicName)
+			line := M{"e": "check", "scn": idx, "k": k + 1, "t": tpub, "tq": hnet.NowMs() - w.t0, "stream": stream,
+				"edges": w.wantEdges(), "real": real, "real1": w.realEdges(), "peers1": peers1,
+				"pubs": pubs, "live": live, "dead": dead, "deliv": w.deliveries(topicName),
+				"fanout1": fan, "irelays": irel, "kinds": s.Kinds, "iwant": iw, "ihave": ih, "sent": sent,
+				"mesh1": post["mesh"], "backoff1": post["backoff"], "views1": post["views"], "joined1": post["joined"],
+				"meshev": w.meshEvents(t0abs)}
 			for kk, v := range pre {
 				line[kk] = v
+			}
+			if w.twoTop {
+				postU := w.views(topicU)
+				ulive, udead, uirel := w.liveDead(topicU)
+				u := M{"pubs": upubs, "live": ulive, "dead": udead, "irelays": uirel, "deliv": w.deliveries(topicU), "fanout1": fanU,
+					"mesh1": postU["mesh"], "backoff1": postU["backoff"], "views1": postU["views"], "joined1": postU["joined"]}
+				for kk, v := range preU {
+					if kk != "peers" && kk != "protos" {
+						u[kk] = v
+					}
+				}
+				line["u"] = u
+			} else {
+				line["u"] = M{"pubs": []any{}}
 			}
 			if debug {
 				var lg []string
